@@ -220,9 +220,13 @@ def check_validator(ix, modes, ordering):
     n_paths = 0
     for assume, (kind, val), ev in S.explore_ev(fn, [indices, vals], {"mode_types": tuple(modes), "dimensions": dims, "mode_ordering": tuple(ordering)}, G):
         n_paths += 1
+        built = len(news)
+        news.clear()
         if kind == "uninterpretable":
             problems.append(f"validator not interpretable: {val}")
         elif kind == "raise":
+            if built:
+                problems.append("arrays are built before all validation clauses ran (a rejected structure leaves cdata behind / is half-registered)")
             if val != "ValueError":
                 problems.append(f"an invalid structure raises {val}, documented is ValueError")
         else:
@@ -586,3 +590,176 @@ def rule_construction_semantics(ctx, ix):
         )
     else:
         ctx.ok("C09.mapping-consumption", key)
+
+
+# ------------------------------------------------------------------------------------------------
+# the thin API around from_aos / the validator
+# ------------------------------------------------------------------------------------------------
+def _same(a, b):
+    """Structural equality of nested lists/tuples of SymList / Poly / plain values."""
+    if isinstance(a, SymList) or isinstance(b, SymList):
+        return isinstance(a, SymList) and a.same(b)
+    if isinstance(a, (list, tuple)) and isinstance(b, (list, tuple)):
+        return len(a) == len(b) and all(_same(x, y) for x, y in zip(a, b))
+    return a == b
+
+
+def rule_api_semantics(ctx, ix):
+    """Constructors, to_format, to_dok and pickling, evaluated abstractly: each must hand exactly the data it
+    was given (in the given order, with the given dimensions and format) to from_aos / from_dok / the
+    validator; allocate_taco_structure and Format reject an ordering that is not a permutation."""
+    ctx.rule("C09.api-semantics", "constructors / to_format / to_dok / pickling pass the data on unchanged; orderings must be permutations", min_instances=8)
+
+    def check(key, problems):
+        ctx.instance("C09.api-semantics")
+        if problems:
+            ctx.fail("C09.api-semantics", key, "; ".join(sorted(set(problems)))[:500])
+        else:
+            ctx.ok("C09.api-semantics", key)
+
+    def meth(name):
+        return ix.func(f"{T_MOD}.Tensor.{name}").node
+
+    TG = {f.name: f.node for q, f in ix.funcs.items() if f.module == T_MOD and q == f"{T_MOD}.{f.name}"}
+    a, b, c, d = (Poly.atom(x) for x in "abcd")
+    v0, v1 = Poly.atom("v0"), Poly.atom("v1")
+    DIMS, FMT = (7, 9), S.Obj("FormatToken")
+
+    def run_static(name, args, kwargs, target):
+        calls = []
+
+        def rec(*a_, **k_):
+            calls.append((a_, k_))
+            return S.Obj("TensorResult")
+
+        T = S.Obj("Class", name="Tensor", **{target: rec})
+        outs = list(S.explore_ev(meth(name), args, kwargs, {**TG, "Tensor": T, "Real": S.Obj("Class", name="Real")}))
+        return outs, calls
+
+    def passed(call, coords, values, dims=DIMS, fmt=FMT):
+        a_, k_ = call
+        pos = list(a_)
+        got_c = list(pos[0]) if pos else None
+        got_v = list(pos[1]) if len(pos) > 1 else list(k_.get("values", []))
+        probs = []
+        if got_c != coords:
+            probs.append(f"coordinates handed on are {got_c}, given {coords}")
+        if got_v != values:
+            probs.append(f"values handed on are {got_v}, given {values}")
+        if k_.get("dimensions", pos[2] if len(pos) > 2 else None) is not dims:
+            probs.append("dimensions are not passed through")
+        if k_.get("format", pos[3] if len(pos) > 3 else None) is not fmt:
+            probs.append("format is not passed through")
+        return probs
+
+    # from_dok
+    outs, calls = run_static("from_dok", [{(a, b): v0, (c, d): v1}], {"dimensions": DIMS, "format": FMT}, "from_aos")
+    check("tensor.py:Tensor.from_dok", [f"{o[1]}" for o in outs if o[1][0] != "return"] + (passed(calls[0], [(a, b), (c, d)], [v0, v1]) if len(calls) == 1 else [f"from_aos called {len(calls)} times"]))
+    # from_soa
+    outs, calls = run_static("from_soa", [((a, c), (b, d)), [v0, v1]], {"dimensions": DIMS, "format": FMT}, "from_aos")
+    check("tensor.py:Tensor.from_soa", [f"{o[1]}" for o in outs if o[1][0] != "return"] + (passed(calls[0], [(a, b), (c, d)], [v0, v1]) if len(calls) == 1 else [f"from_aos called {len(calls)} times"]))
+    # from_lol (explicit zero dropped, row-major coordinates)
+    outs, calls = run_static("from_lol", [[[1.5, 0.0], [2.5, 3.5]]], {"dimensions": DIMS, "format": FMT}, "from_aos")
+    probs = [f"{o[1]}" for o in outs if o[1][0] != "return"]
+    if len(calls) == 1:
+        probs += passed(calls[0], [(0, 0), (1, 0), (1, 1)], [1.5, 2.5, 3.5])
+    else:
+        probs.append(f"from_aos called {len(calls)} times")
+    check("tensor.py:Tensor.from_lol", probs)
+    # to_format
+    TOK = S.Obj("DokToken")
+    me = S.Obj("Tensor", to_dok=lambda **k: TOK, dimensions=DIMS)
+    outs, calls = run_static("to_format", [me, FMT], {}, "from_dok")
+    probs = [f"{o[1]}" for o in outs if o[1][0] != "return"]
+    if len(calls) == 1:
+        a_, k_ = calls[0]
+        if not (a_ and a_[0] is TOK):
+            probs.append("to_format does not rebuild from self.to_dok()")
+        if k_.get("dimensions", a_[1] if len(a_) > 1 else None) is not DIMS:
+            probs.append("to_format does not keep self.dimensions")
+        if k_.get("format", a_[2] if len(a_) > 2 else None) is not FMT:
+            probs.append("to_format does not use the requested format")
+    else:
+        probs.append(f"from_dok called {len(calls)} times")
+    check("tensor.py:Tensor.to_format", probs)
+    # to_dok
+    items = [((0, 1), 2.0), ((1, 1), 0.0), ((1, 0), -1.0)]
+    probs = []
+    for ez, want in ((False, {(0, 1): 2.0, (1, 0): -1.0}), (True, dict(items))):
+        me = S.Obj("Tensor", items=lambda: list(items))
+        outs = list(S.explore_ev(meth("to_dok"), [me], {"explicit_zeros": ez}, TG))
+        if len(outs) != 1 or outs[0][1][0] != "return" or outs[0][1][1] != want:
+            probs.append(f"to_dok(explicit_zeros={ez}) gives {[o[1] for o in outs]}, expected every {'item' if ez else 'non-zero item'} of items()")
+    check("tensor.py:Tensor.to_dok", probs)
+    # pickling: __setstate__(__getstate__()) hands the validator exactly what the readers read
+    probs = []
+    for modes, ordering in (((0, 1), (1, 0)), ((1, 1, 0), (1, 2, 0)), ((), ())):
+        me, dims = reader_self(modes, ordering)
+        props = {}
+        for name in ("format", "taco_indices", "taco_vals"):
+            f = ix.funcs.get(f"{T_MOD}.Tensor.{name}")
+            if f is not None:
+                props[name] = f.node
+        me.attrs["__methods__"] = props
+        G = {**TG, **READER_G, "Format": lambda m, o: S.make_format(tuple(m), tuple(o))}
+        outs = list(S.explore_ev(meth("__getstate__"), [me], {}, G))
+        if len(outs) != 1 or outs[0][1][0] != "return" or not isinstance(outs[0][1][1], dict):
+            probs.append(f"__getstate__: {[o[1] for o in outs][:1]}")
+            continue
+        state = outs[0][1][1]
+        want_idx = list(S.explore_ev(props["taco_indices"], [me], {}, G))[0][1][1]
+        want_vals = list(S.explore_ev(props["taco_vals"], [me], {}, G))[0][1][1]
+        want = {"dimensions": dims, "mode_types": tuple(modes), "mode_ordering": tuple(ordering), "indices": want_idx, "vals": want_vals}
+        for k, w in want.items():
+            if k not in state or not _same(state[k], w):
+                probs.append(f"__getstate__ writes {k}={state.get(k)!r}, the tensor's is {w!r}")
+        calls = []
+
+        def to_cffi(*a_, _c=calls, **k_):
+            _c.append((a_, k_))
+            return S.Obj("struct")
+
+        new = S.Obj("Tensor")
+        outs = list(S.explore_ev(meth("__setstate__"), [new, state], {}, {**G, "taco_structure_to_cffi": to_cffi}))
+        if len(outs) != 1 or outs[0][1][0] != "return" or len(calls) != 1:
+            probs.append(f"__setstate__ does not rebuild through taco_structure_to_cffi exactly once: {[o[1] for o in outs][:1]}")
+            continue
+        a_, k_ = calls[0]
+        params = ["indices", "vals", "mode_types", "dimensions", "mode_ordering"]
+        bound = dict(zip(params, a_))
+        bound.update(k_)
+        for k in params:
+            if bound.get(k) is not state[k]:
+                probs.append(f"__setstate__ binds parameter {k} to something other than state['{k}']")
+        if not any(v is outs[0][2] for v in ()) and not (isinstance(new.attrs.get("cffi_tensor"), S.Obj) and new.attrs["cffi_tensor"].tag == "struct"):
+            probs.append("__setstate__ does not store the rebuilt structure on the tensor")
+    check("tensor.py:Tensor.__getstate__/__setstate__", probs)
+    # orderings must be permutations
+    from .ownsem import World
+
+    probs = []
+    for modes, ordering in (((0, 1), (0, 0)), ((0, 1), (1, 2)), ((0,), (1,)), ((1, 1, 0), (0, 1, 1))):
+        w = World(ix)
+        out = w.run("allocate_taco_structure", [list(modes), [2] * len(modes), list(ordering)])
+        if out != ("raise", "ValueError"):
+            probs.append(f"allocate_taco_structure accepts ordering {ordering} for {len(modes)} levels: {out}")
+    w = World(ix)
+    out = w.run("allocate_taco_structure", [[0, 1], [2, 3], [1, 0]])
+    if out[0] != "return":
+        probs.append(f"allocate_taco_structure rejects a valid request: {out}")
+    check("compile/_cffi_ownership.py:allocate_taco_structure:ordering must be a permutation", probs)
+    probs = []
+    post = ix.funcs.get("tensora.format._format.Format.__post_init__")
+    if post is None:
+        probs.append("Format has no __post_init__ validation")
+    else:
+        G = {"InvalidModeOrderingError": lambda *a_: S.Obj("Exception", name="InvalidModeOrderingError")}
+        for modes, ordering, ok in (((0, 1), (0, 0), False), ((0, 1), (1, 2), False), ((0,), (0, 1), False), ((0, 1), (1, 0), True), ((), (), True)):
+            me = S.Obj("Format", modes=tuple(modes), ordering=tuple(ordering), order=len(modes))
+            outs = list(S.explore_ev(post.node, [me], {}, G))
+            got = [o[1][0] for o in outs]
+            if ok and got != ["return"]:
+                probs.append(f"Format rejects the valid ordering {ordering}: {[o[1] for o in outs]}")
+            if not ok and got != ["raise"]:
+                probs.append(f"Format accepts ordering {ordering} for {len(modes)} modes")
+    check("format/_format.py:Format.__post_init__:ordering must be a permutation", probs)
